@@ -1,86 +1,454 @@
-import Ivg.Gen.Tie.Code.Base
-import Ivg.Gen.Code.P_math
-import Ivg.Gen.Code.P_render
-import Ivg.Model.GoMath
-import Ivg.Model.Arc
+import Ivg.Gen.Tie.Code.MathReduce
 /-!
-# Tie: Go's `math.Asin / Acos / asin / acos / satan / xatan / NaN` (the pure-Go code that runs on amd64) and the `angle`
-closure of `Renderer.AbsArcTo`, as TRANSLATED from the Go source (`Ivg/Gen/Code/P_math.lean`, `P_render.lean`) = the
-hand-written port `Ivg/Model/GoMath.lean` / `Ivg.Ren.arcAngle` of `Ivg/Model/Arc.lean`, FOR ALL inputs.
+# Tie: Go's `math.Sin / Cos / sin / cos / IsNaN / IsInf` (the pure-Go code that runs on amd64), as TRANSLATED from the Go
+source (`Ivg/Gen/Code/P_math.lean`), = the hand-written port `GoMath.sin / cos / isInf` of `Ivg/Model/GoMath.lean`,
+FOR ALL `x : F64` — NaN, ±Inf, ±0, the Cody–Waite branch (|x| < 2^29) and the Payne–Hanek branch (`trigReduce`, tied in
+`MathReduce.lean`; the integer layer `bits.Mul64/Add64/LeadingZeros64` in `MathBits.lean`).  The inverse functions
+(`Asin`, `Acos`, `satan`, `xatan`) and the `angle` closure of `AbsArcTo` are tied in `MathInv.lean`.
 
-(`math.Sin`/`math.Cos` are tied in `MathTrig.lean`, on top of `MathBits.lean`, `MathReduce.lean`.)
+Where the two sides are written differently:
+* `uint64(x * (4/Pi))`: Go's amd64 conversion (`Go.cvt_f64_u64`, with its branch for values from 2^63 on) against the
+  port's `(F64.toInt64 …).toNat`.  They agree because the product is a non-negative float below 2^32 there
+  (`cvt_small`, from a bound on the soft-float product: `mul_fourOverPi_below`, `roundMag_below`).
+* the octant `j` is a `uint64` in Go and a natural in the port; both are below 8, and the two decision trees are compared
+  octant by octant (`trig_tail8`).
+* the generated code duplicates the tail of the function under every branch (SSA without joins); the port keeps
+  `sign`, `j`, `y` as values.
 -/
 namespace Ivg.Gen.Tie
 open Ivg Ivg.Num Ivg.Gen.Code
+set_option maxRecDepth 100000
+set_option linter.unusedSimpArgs false
+set_option linter.unusedVariables false
 
-/-! ## the port's named constants are the literals of the generated code -/
-tolerant
-theorem f64_zero_lit : (0 : F64) = ⟨0⟩ := by decide
-tolerant
-theorem f64_ofInt_one' : F64.ofInt 1 = ⟨0x3ff0000000000000⟩ := by decide
-tolerant
-theorem f64_ofInt_zero' : F64.ofInt 0 = ⟨0⟩ := by decide
-tolerant
-theorem f64_ofInt_neg_one' : F64.ofInt (-1) = ⟨0xbff0000000000000⟩ := by decide
-tolerant
-theorem goMath_one : GoMath.one = ⟨0x3ff0000000000000⟩ := rfl
-tolerant
-theorem goMath_half : GoMath.half = ⟨0x3fe0000000000000⟩ := rfl
-tolerant
-theorem goMath_c07 : GoMath.c07 = ⟨0x3fe6666666666666⟩ := rfl
-tolerant
-theorem goMath_pi : GoMath.pi = ⟨0x400921fb54442d18⟩ := rfl
-tolerant
-theorem goMath_piO2 : GoMath.piO2 = ⟨0x3ff921fb54442d18⟩ := rfl
-tolerant
-theorem goMath_piO4 : GoMath.piO4 = ⟨0x3fe921fb54442d18⟩ := rfl
+/-! ## the soft-float product `x * (4/Pi)` below 2^29 -/
 
 tolerant
-/-- bits.go `NaN` (`Float64frombits(uvnan)`) -/
-theorem naN_code_tie : math_NaN = GoMath.nan := rfl
+theorem emin_f64 : Fmt.f64.emin = -1074 := by decide
+tolerant
+theorem prec_f64 : Fmt.f64.prec = 53 := by decide
+tolerant
+theorem mbits_f64 : Fmt.f64.mbits = 52 := rfl
+tolerant
+theorem ebits_f64 : Fmt.f64.ebits = 11 := rfl
+tolerant
+theorem expMax_f64 : Fmt.f64.expMax = 2047 := by decide
 
 tolerant
-/-- atan.go `xatan` -/
-theorem xatan_code_tie (x : F64) : math_xatan x = GoMath.xatan x := rfl
+theorem bitLen_lt_pow (m : Nat) : m < 2 ^ bitLen m := by
+  unfold bitLen
+  split
+  · rename_i h; have : m = 0 := by simpa using h
+    subst this; decide
+  · exact Nat.lt_log2_self
 
 tolerant
-/-- atan.go `satan` -/
-theorem satan_code_tie (x : F64) : math_satan x = GoMath.satan x := by
-  simp only [math_satan, GoMath.satan, xatan_code_tie, f64_le_iff, f64_lt_iff]
-  rfl
+/-- a binary64 whose sign bit is clear and whose exponent field is at most `k ≤ 2046`, unpacked -/
+theorem unpack_below (b k : Nat) (hk1 : 1 ≤ k) (hk : k ≤ 2046) (h : b < (k + 1) * 2 ^ 52) :
+    ∃ m e, unpack .f64 b = .fin false m e ∧ m < 2 ^ 53 ∧ e ≤ (k : Int) - 1075 := by
+  have c1 : (2:Nat)^52 = 4503599627370496 := by decide
+  have c2 : (2:Nat)^11 = 2048 := by decide
+  have c3 : (2:Nat)^53 = 9007199254740992 := by decide
+  rw [c1] at h
+  have hex : b / 4503599627370496 ≤ k := by
+    have := (Nat.div_lt_iff_lt_mul (by decide : 0 < 4503599627370496)).2 h
+    omega
+  have hneg : (b / 9223372036854775808 % 2 == 1) = false := by
+    have : b / 9223372036854775808 = 0 := by omega
+    rw [this]; rfl
+  simp only [unpack, emin_f64, signBit_f64, mbits_f64, ebits_f64, expMax_f64, c1, c2, c3, hneg]
+  have hne : ¬ (b / 4503599627370496 % 2048 == 2047) = true := by
+    simp only [beq_iff_eq]; omega
+  simp only [hne, if_false, Bool.false_eq_true]
+  split
+  · exact ⟨_, _, rfl, by omega, by omega⟩
+  · exact ⟨_, _, rfl, by omega, by omega⟩
 
 tolerant
-/-- asin.go `asin` (the generated code tests `x < 0` once and continues on two copies; the port keeps `sign`) -/
-theorem asinImpl_code_tie (x : F64) : math_asin x = GoMath.asin x := by
-  simp only [math_asin, GoMath.asin, satan_code_tie, f64_lt_iff, f64_zero_lit, naN_code_tie, goMath_one, goMath_c07,
-    goMath_piO2]
-  by_cases h0 : F64.feq x ⟨0⟩ = true <;> by_cases h1 : F64.lt x ⟨0⟩ = true <;>
-    simp only [h0, h1, if_true, if_false, decide_true, decide_false, Bool.false_eq_true]
-  all_goals (split <;> try rfl)
-  all_goals (split <;> rfl)
+/-- the magnitude of a rounded `m·2^e` lies at most one binade above the exact value: exponent field ≤ `k + 1` when
+    `m·2^e < 2^(k - 1022)` -/
+theorem roundMag_below (m : Nat) (e : Int) (k : Nat) (h : e + (bitLen m : Int) ≤ (k : Int) - 1022) :
+    roundMag .f64 m e ≤ (k + 2) * 2 ^ 52 := by
+  have c52 : (2:Nat)^52 = 4503599627370496 := by decide
+  have c53 : (2:Nat)^53 = 9007199254740992 := by decide
+  have hL := bitLen_lt_pow m
+  simp only [roundMag, emin_f64, prec_f64, mbits_f64, c52]
+  generalize hfe : (if e + (bitLen m : Int) - ((53 : Nat) : Int) < -1074 then (-1074 : Int) else e + (bitLen m : Int) - ((53 : Nat) : Int)) = fe
+  have hfe1 : e + (bitLen m : Int) - 53 ≤ fe := by rw [← hfe]; split <;> omega
+  have hfe2 : fe ≤ (k : Int) - 1075 ∨ fe = -1074 := by rw [← hfe]; split <;> omega
+  have hfe3 : -1074 ≤ fe := by rw [← hfe]; split <;> omega
+  -- the rounded significand is at most 2^53
+  have hq : (if fe ≤ e then m * 2 ^ (e - fe).toNat
+      else if (decide (m % 2 ^ (fe - e).toNat > 2 ^ ((fe - e).toNat - 1)) ||
+          (m % 2 ^ (fe - e).toNat == 2 ^ ((fe - e).toNat - 1) && m / 2 ^ (fe - e).toNat % 2 == 1)) = true
+        then m / 2 ^ (fe - e).toNat + 1 else m / 2 ^ (fe - e).toNat) ≤ 9007199254740992 := by
+    split
+    · rename_i hle
+      obtain ⟨a, ha⟩ : ∃ a : Nat, bitLen m + (e - fe).toNat + a = 53 := ⟨53 - (bitLen m + (e - fe).toNat), by omega⟩
+      have h1 : m * 2 ^ (e - fe).toNat < 2 ^ (bitLen m) * 2 ^ (e - fe).toNat :=
+        (Nat.mul_lt_mul_right (Nat.two_pow_pos _)).2 hL
+      have h2 : 2 ^ (bitLen m) * 2 ^ (e - fe).toNat * 2 ^ a = 2 ^ 53 := by
+        rw [← Nat.pow_add, ← Nat.pow_add, ha]
+      have h3 := Nat.two_pow_pos a
+      have : 2 ^ (bitLen m) * 2 ^ (e - fe).toNat ≤ 2 ^ 53 := by
+        rw [← h2]; exact Nat.le_mul_of_pos_right _ h3
+      omega
+    · rename_i hgt
+      obtain ⟨a, ha⟩ : ∃ a : Nat, bitLen m + a = 53 + (fe - e).toNat := ⟨53 + (fe - e).toNat - bitLen m, by omega⟩
+      have h2 : 2 ^ (bitLen m) * 2 ^ a = 2 ^ 53 * 2 ^ (fe - e).toNat := by
+        rw [← Nat.pow_add, ← Nat.pow_add, ha]
+      have h3 := Nat.two_pow_pos a
+      have h4 : m < 2 ^ 53 * 2 ^ (fe - e).toNat := by
+        have : 2 ^ (bitLen m) ≤ 2 ^ (bitLen m) * 2 ^ a := Nat.le_mul_of_pos_right _ h3
+        omega
+      have h5 : m / 2 ^ (fe - e).toNat < 2 ^ 53 := (Nat.div_lt_iff_lt_mul (Nat.two_pow_pos _)).2 h4
+      split <;> omega
+  generalize (if fe ≤ e then m * 2 ^ (e - fe).toNat
+      else if (decide (m % 2 ^ (fe - e).toNat > 2 ^ ((fe - e).toNat - 1)) ||
+          (m % 2 ^ (fe - e).toNat == 2 ^ ((fe - e).toNat - 1) && m / 2 ^ (fe - e).toNat % 2 == 1)) = true
+        then m / 2 ^ (fe - e).toNat + 1 else m / 2 ^ (fe - e).toNat) = q at hq ⊢
+  rw [infBits_f64]
+  have hb : (fe - -1074).toNat * 4503599627370496 + q ≤ (k + 2) * 4503599627370496 := by
+    rcases hfe2 with h1 | h1
+    · omega
+    · omega
+  split <;> omega
 
 tolerant
-/-- asin.go `Asin` (`haveArchAsin = false` on amd64: the assembly stub is not reached) -/
-theorem asin_code_tie (x : F64) : math_Asin x = GoMath.asin x := by
-  simp only [math_Asin, asinImpl_code_tie, Bool.false_eq_true, if_false]
+/-- `math.Float64bits` of a product with the constant `4/Pi`, for an argument below 2^29 with the sign bit clear:
+    sign bit clear, exponent field at most 1054 (the product is below 2^32) -/
+theorem mul_fourOverPi_below (a : F64) (ha : a.bits.toNat < 0x41c0000000000000) :
+    (a * (⟨0x3ff45f306dc9c883⟩ : F64)).bits.toNat ≤ 1054 * 2 ^ 52 := by
+  obtain ⟨m, e, hu, hm, he⟩ := unpack_below a.bits.toNat 1051 (by decide) (by decide) (by omega)
+  have hc : unpack .f64 (⟨0x3ff45f306dc9c883⟩ : F64).nb = .fin false 0x145f306dc9c883 (-52) := by decide
+  show (F64.mul a _).bits.toNat ≤ _
+  unfold F64.mul Num.mul
+  rw [hc]
+  unfold F64.nb
+  rw [hu]
+  simp only [roundPack, bne_self_eq_false, Bool.false_eq_true, if_false, Bool.not_false, Bool.and_true, withSign]
+  have hmn : m * 5734161139222659 < 2 ^ 106 := by
+    have : m * 5734161139222659 < 2 ^ 53 * 2 ^ 53 :=
+      Nat.mul_lt_mul'' hm (by decide)
+    rw [← Nat.pow_add] at this
+    exact this
+  have hbl := bitLen_le _ _ hmn
+  have hr := roundMag_below (m * 5734161139222659) (e + -52) 1052 (by omega)
+  have c : (1052 + 2) * 2 ^ 52 = 4746794007248502784 := by decide
+  have c' : 1054 * 2 ^ 52 = 4746794007248502784 := by decide
+  rw [c] at hr
+  rw [c']
+  unfold F64.ofNatBits
+  rw [UInt64.toNat_ofNat']
+  split <;> omega
 
 tolerant
-/-- asin.go `acos` -/
-theorem acosImpl_code_tie (x : F64) : math_acos x = GoMath.acos x := by
-  simp only [math_acos, asin_code_tie, GoMath.acos, goMath_piO2]
+/-- Go's `uint64(x * (4/Pi))` (sin.go:146/218) for `0 ≤ x < 2^29` (bits below those of `reduceThreshold`): the amd64
+    conversion takes its plain CVTTSD2SQ branch and the result is the non-negative truncation the port computes with
+    `F64.toInt64 … |>.toNat` -/
+theorem cvt_small (a : F64) (ha : a.bits.toNat < 0x41c0000000000000) :
+    (Go.cvt_f64_u64 (a * (⟨0x3ff45f306dc9c883⟩ : F64))).toNat =
+      (F64.toInt64 (a * (⟨0x3ff45f306dc9c883⟩ : F64))).toNat := by
+  have hP := mul_fourOverPi_below a ha
+  generalize a * (⟨0x3ff45f306dc9c883⟩ : F64) = P at *
+  have c' : 1054 * 2 ^ 52 = 4746794007248502784 := by decide
+  rw [c'] at hP
+  obtain ⟨m, e, hu, hm, he⟩ := unpack_below P.bits.toNat 1054 (by decide) (by decide) (by omega)
+  have hle : F64.le ⟨0x43e0000000000000⟩ P = false := by
+    unfold F64.le F64.nb
+    rw [le_f64_pos _ _ (by decide) (by omega)]
+    simp only [decide_eq_false_iff_not]
+    have : (4890909195324358656 : UInt64).toNat = 4890909195324358656 := by decide
+    omega
+  have hti : F64.toInt64 P = ((m / 2 ^ (-e).toNat : Nat) : Int) := by
+    unfold F64.toInt64 truncInt F64.nb
+    rw [hu]
+    have hneg : ¬ e ≥ 0 := by omega
+    simp only [hneg, if_false, Bool.false_eq_true]
+    have hq : m / 2 ^ (-e).toNat ≤ m := Nat.div_le_self _ _
+    have c53 : (2:Nat) ^ 53 = 9007199254740992 := by decide
+    generalize m / 2 ^ (-e).toNat = q at *
+    rw [if_neg (by omega)]
+  unfold Go.cvt_f64_u64
+  simp only [hle, Bool.false_eq_true, if_false]
+  rw [hti]
+  have hq : m / 2 ^ (-e).toNat ≤ m := Nat.div_le_self _ _
+  have c53 : (2:Nat) ^ 53 = 9007199254740992 := by decide
+  generalize m / 2 ^ (-e).toNat = q at *
+  rw [UInt64.ofInt, UInt64.toNat_ofNat']
+  omega
+
+/-! ## `IsNaN`, `IsInf`, `Abs`, negation on the bits -/
 
 tolerant
-/-- asin.go `Acos` (`haveArchAcos = false` on amd64) -/
-theorem acos_code_tie (x : F64) : math_Acos x = GoMath.acos x := by
-  simp only [math_Acos, acosImpl_code_tie, Bool.false_eq_true, if_false]
+/-- bits.go `IsNaN` (`f != f`) -/
+theorem isNaN_code_tie (x : F64) : math_IsNaN x = x.isNaN := by
+  unfold math_IsNaN F64.feq F64.isNaN Num.eq
+  rw [toOrd_f64]
+  simp only [Num.isNaN, signBit_f64, infBits_f64]
+  by_cases h : x.nb % 9223372036854775808 > 9218868437227405312
+  · simp only [h, if_true, decide_true, Bool.not_false]
+  · by_cases hs : x.nb ≥ 9223372036854775808 <;>
+      simp only [h, hs, if_true, if_false, decide_false, beq_self_eq_true, Bool.not_true]
 
 tolerant
-/-- render.go `AbsArcTo`, the closure `angle` (function literal no. 1 of `AbsArcTo`) -/
-theorem absArcTo_angle_code_tie (ux uy vx vy : F64) :
-    render_AbsArcTo_1 ux uy vx vy = Ivg.Ren.arcAngle ux uy vx vy := by
-  simp only [render_AbsArcTo_1, Ivg.Ren.arcAngle, Ivg.Ren.f, acos_code_tie, f64_lt_iff, f64_le_iff, goMath_pi,
-    f64_ofInt_one', f64_ofInt_zero', f64_ofInt_neg_one']
-  repeat' split
-  all_goals first | rfl | contradiction
+theorem isNaN_bits (x : F64) : x.isNaN = decide (x.bits.toNat % 9223372036854775808 > 9218868437227405312) := by
+  simp only [F64.isNaN, Num.isNaN, signBit_f64, infBits_f64, F64.nb]
+
+tolerant
+/-- bits.go `IsInf(f, 0)` (`f > MaxFloat64 || f < -MaxFloat64`) = the port's test on the bits -/
+theorem isInf_code_tie (x : F64) : math_IsInf x 0 = GoMath.isInf x := by
+  have hx := x.bits.toNat_lt
+  have hb : GoMath.isInf x = decide (x.bits.toNat % 9223372036854775808 = 9218868437227405312) := by
+    unfold GoMath.isInf F64.abs Num.abs F64.ofNatBits F64.nb
+    rw [Bool.eq_iff_iff]
+    simp only [beq_iff_eq, decide_eq_true_eq, signBit_f64, ← UInt64.toNat_inj, UInt64.toNat_ofNat']
+    have : (9218868437227405312 : UInt64).toNat = 9218868437227405312 := by decide
+    rw [this]
+    omega
+  rw [hb]
+  unfold math_IsInf F64.lt Num.lt F64.nb
+  simp only [toOrd_f64]
+  have c1 : (⟨0x7fefffffffffffff⟩ : F64).bits.toNat = 9218868437227405311 := by decide
+  have c2 : (⟨0xffefffffffffffff⟩ : F64).bits.toNat = 18442240474082181119 := by decide
+  simp only [c1, c2]
+  by_cases h : x.bits.toNat % 9223372036854775808 > 9218868437227405312
+  · simp [h]; omega
+  · by_cases hs : x.bits.toNat ≥ 9223372036854775808
+    · simp [h, hs]
+      rw [Bool.eq_iff_iff]; simp only [Bool.or_eq_true, decide_eq_true_eq]; omega
+    · simp [h, hs]
+      rw [Bool.eq_iff_iff]; simp only [Bool.or_eq_true, decide_eq_true_eq]; omega
+
+tolerant
+theorem abs_bits (x : F64) : (F64.abs x).bits.toNat = x.bits.toNat % 9223372036854775808 := by
+  have := x.bits.toNat_lt
+  unfold F64.abs Num.abs F64.ofNatBits F64.nb
+  rw [signBit_f64, UInt64.toNat_ofNat']
+  omega
+
+tolerant
+theorem isInf_bits (x : F64) : GoMath.isInf x = decide (x.bits.toNat % 9223372036854775808 = 9218868437227405312) := by
+  have hx := x.bits.toNat_lt
+  unfold GoMath.isInf F64.abs Num.abs F64.ofNatBits F64.nb
+  rw [Bool.eq_iff_iff]
+  simp only [beq_iff_eq, decide_eq_true_eq, signBit_f64, ← UInt64.toNat_inj, UInt64.toNat_ofNat']
+  have : (9218868437227405312 : UInt64).toNat = 9218868437227405312 := by decide
+  rw [this]
+  omega
+
+tolerant
+/-- the octant returned by `trigReduce` is below 8 -/
+theorem trigReduce_lt8 (x : F64) : (GoMath.trigReduce x).1 < 8 := by
+  unfold GoMath.trigReduce
+  extract_lets ix0 exp ix u digit bitshift d0 d1 d2 d3 z0 z1 z2 z2hi z1hi z1lo z0lo lo c hi j hi2 lz e hi3
+    hi4 hi5 z odd j' z'
+  split
+  · exact Nat.zero_lt_succ 7
+  · show j' < 8
+    have hj : j < 8 := by
+      show hi / 2 ^ 61 < 8
+      have : hi < 2 ^ 64 := Nat.mod_lt _ (by decide)
+      omega
+    show (if odd = true then (j + 1) % 8 else j) < 8
+    split
+    · omega
+    · exact hj
+
+tolerant
+theorem u64_lt8_cases (j : UInt64) (h : j.toNat < 8) :
+    j = 0 ∨ j = 1 ∨ j = 2 ∨ j = 3 ∨ j = 4 ∨ j = 5 ∨ j = 6 ∨ j = 7 := by
+  have h' : j.toNat = 0 ∨ j.toNat = 1 ∨ j.toNat = 2 ∨ j.toNat = 3 ∨ j.toNat = 4 ∨ j.toNat = 5 ∨ j.toNat = 6 ∨
+      j.toNat = 7 := by omega
+  simp only [← UInt64.toNat_inj]
+  exact h'
+
+
+tolerant
+theorem neg_bits (x : F64) (h : 9223372036854775808 ≤ x.bits.toNat) :
+    (-x).bits.toNat = x.bits.toNat - 9223372036854775808 := by
+  have := x.bits.toNat_lt
+  show (F64.neg x).bits.toNat = _
+  unfold F64.neg Num.neg F64.ofNatBits F64.nb
+  rw [signBit_f64, if_pos h, UInt64.toNat_ofNat']
+  omega
+
+tolerant
+/-- what the tests at the head of `sin` leave: a negative finite non-zero `x` (then `-x` is passed on) or a positive
+    one -/
+theorem sin_sign_facts (x : F64) (h0 : F64.feq x ⟨0⟩ = false) (hn : x.isNaN = false) (hi : GoMath.isInf x = false) :
+    (F64.lt x ⟨0⟩ = true ∧ 9223372036854775808 ≤ x.bits.toNat ∧ x.bits.toNat - 9223372036854775808 < 9218868437227405312) ∨
+    (F64.lt x ⟨0⟩ = false ∧ x.bits.toNat < 9218868437227405312) := by
+  have hx := x.bits.toNat_lt
+  rw [isNaN_bits] at hn
+  rw [isInf_bits] at hi
+  simp only [decide_eq_false_iff_not] at hn hi
+  unfold F64.feq Num.eq F64.nb at h0
+  unfold F64.lt Num.lt F64.nb
+  rw [toOrd_f64] at h0 ⊢
+  have z : (⟨0⟩ : F64).bits.toNat = 0 := by decide
+  rw [z] at h0 ⊢
+  rw [toOrd_f64_pos 0 (by decide)] at h0 ⊢
+  rw [if_neg hn] at h0 ⊢
+  by_cases hs : x.bits.toNat ≥ 9223372036854775808
+  · left
+    rw [if_pos hs] at h0 ⊢
+    simp only [beq_eq_false_iff_ne, ne_eq] at h0
+    refine ⟨?_, hs, by omega⟩
+    simp only [decide_eq_true_eq]
+    omega
+  · right
+    rw [if_neg hs] at h0 ⊢
+    simp only [beq_eq_false_iff_ne, ne_eq] at h0
+    refine ⟨?_, by omega⟩
+    simp only [decide_eq_false_iff_not]
+    omega
+
+/-! ## constants -/
+
+tolerant
+theorem sinC0 : Go.arrGet G_math__sin 0 = GoMath.sin0 := by decide
+tolerant
+theorem sinC1 : Go.arrGet G_math__sin 1 = GoMath.sin1 := by decide
+tolerant
+theorem sinC2 : Go.arrGet G_math__sin 2 = GoMath.sin2 := by decide
+tolerant
+theorem sinC3 : Go.arrGet G_math__sin 3 = GoMath.sin3 := by decide
+tolerant
+theorem sinC4 : Go.arrGet G_math__sin 4 = GoMath.sin4 := by decide
+tolerant
+theorem sinC5 : Go.arrGet G_math__sin 5 = GoMath.sin5 := by decide
+tolerant
+theorem cosC0 : Go.arrGet G_math__cos 0 = GoMath.cos0 := by decide
+tolerant
+theorem cosC1 : Go.arrGet G_math__cos 1 = GoMath.cos1 := by decide
+tolerant
+theorem cosC2 : Go.arrGet G_math__cos 2 = GoMath.cos2 := by decide
+tolerant
+theorem cosC3 : Go.arrGet G_math__cos 3 = GoMath.cos3 := by decide
+tolerant
+theorem cosC4 : Go.arrGet G_math__cos 4 = GoMath.cos4 := by decide
+tolerant
+theorem cosC5 : Go.arrGet G_math__cos 5 = GoMath.cos5 := by decide
+
+tolerant
+theorem goMath_PI4A : GoMath.PI4A = ⟨0x3fe921fb40000000⟩ := rfl
+tolerant
+theorem goMath_PI4B : GoMath.PI4B = ⟨0x3e64442d00000000⟩ := rfl
+tolerant
+theorem goMath_PI4C : GoMath.PI4C = ⟨0x3ce8469898cc5170⟩ := rfl
+
+/-! ## the common part of `sin` and `cos` -/
+
+/-- the eight octants, each by evaluation of both decision trees -/
+macro "trig_tail8" j:ident h8:ident : tactic =>
+  `(tactic| (rcases u64_lt8_cases $j $h8 with h | h | h | h | h | h | h | h <;> subst h <;>
+      simp [GoMath.sinPoly, GoMath.cosPoly, sinC0, sinC1, sinC2, sinC3, sinC4, sinC5, cosC0, cosC1, cosC2, cosC3, cosC4,
+        cosC5, goMath_one, goMath_half, goMath_PI4A, goMath_PI4B, goMath_PI4C]))
+
+/-- the three ways through the argument reduction (Payne–Hanek; Cody–Waite with an odd / an even quotient), for the
+    argument `xp` (sign bit clear, finite: `hfin`) after the definitions were opened with the simp set `[ls]` -/
+macro "trig_branches" xp:term:max hfin:ident "[" ls:Lean.Parser.Tactic.simpLemma,* "]" : tactic =>
+  `(tactic| (
+    have hs : ($xp).bits.toNat < 2 ^ 63 := by omega
+    by_cases ht : F64.le ⟨0x41c0000000000000⟩ $xp = true
+    · have htie := trigReduce_code_tie $xp hs
+      have h8 := trigReduce_lt8 $xp
+      rw [← htie] at h8
+      simp only [$ls,*, GoMath.reduce, Bool.false_eq_true, if_false, if_true, Bool.or_self, f64_le_iff, f64_lt_iff,
+        show GoMath.reduceThreshold = ⟨0x41c0000000000000⟩ from rfl, ht, ← htie]
+      generalize (math_trigReduce $xp).1 = j at *
+      generalize (math_trigReduce $xp).2 = z at *
+      have h8' : j.toNat < 8 := h8
+      clear htie h8
+      trig_tail8 j h8'
+    · have hsm : ($xp).bits.toNat < 0x41c0000000000000 := by
+        unfold F64.le F64.nb at ht
+        rw [le_f64_pos _ _ (by decide) (by omega)] at ht
+        have : (⟨0x41c0000000000000⟩ : F64).bits.toNat = 0x41c0000000000000 := by decide
+        simp only [decide_eq_true_eq, this] at ht
+        omega
+      have hc := cvt_small $xp hsm
+      simp only [$ls,*, GoMath.reduce, Bool.false_eq_true, if_false, if_true, Bool.or_self, f64_le_iff, f64_lt_iff,
+        show GoMath.reduceThreshold = ⟨0x41c0000000000000⟩ from rfl, ht,
+        show GoMath.fourOverPi = ⟨0x3ff45f306dc9c883⟩ from rfl, ← hc, Go.cvt_u64_f64]
+      generalize Go.cvt_f64_u64 ($xp * ⟨0x3ff45f306dc9c883⟩) = w at *
+      clear hc
+      have hw := w.toNat_lt
+      by_cases hodd : w.toNat % 2 = 1
+      · have e1 : decide (w &&& 1 = 1) = true := by
+          simp only [u64_eq_one, u64_and1, hodd, decide_true]
+        have hJ : ((w + 1) &&& 7).toNat = (w.toNat + 1) % 8 := by
+          rw [u64_and7, UInt64.toNat_add, u64_lit1]; omega
+        simp only [e1, if_true, hodd, beq_self_eq_true, ← hJ]
+        have h8 : ((w + 1) &&& 7).toNat < 8 := by omega
+        generalize (w + 1) &&& 7 = j at *
+        trig_tail8 j h8
+      · have e1 : decide (w &&& 1 = 1) = false := by
+          simp only [u64_eq_one, u64_and1, hodd, decide_false]
+        have hJ : (w &&& 7).toNat = w.toNat % 8 := u64_and7 w
+        have hb : (w.toNat % 2 == 1) = false := by simpa using hodd
+        simp only [e1, if_false, hb, Bool.false_eq_true, ← hJ]
+        have h8 : (w &&& 7).toNat < 8 := by omega
+        generalize w &&& 7 = j at *
+        trig_tail8 j h8))
+
+/-! ## `cos`, `Cos` -/
+
+tolerant
+/-- sin.go `cos` past the special cases (`x` neither NaN nor ±Inf) -/
+theorem cos_main (x : F64) (hn : x.isNaN = false) (hi : GoMath.isInf x = false) : math_cos x = GoMath.cos x := by
+  have ha := abs_bits x
+  have hn' := hn
+  have hi' := hi
+  rw [isNaN_bits] at hn'
+  rw [isInf_bits] at hi'
+  simp only [decide_eq_false_iff_not] at hn' hi'
+  have hfin : (F64.abs x).bits.toNat < 9218868437227405312 := by omega
+  trig_branches (F64.abs x) hfin [math_cos, GoMath.cos, isNaN_code_tie, isInf_code_tie, hn, hi]
+
+tolerant
+/-- sin.go `cos`, for every `x` -/
+theorem cosImpl_code_tie (x : F64) : math_cos x = GoMath.cos x := by
+  by_cases hn : x.isNaN = true
+  · simp only [math_cos, GoMath.cos, isNaN_code_tie, hn, if_true, Bool.true_or, naN_code_tie]
+  · by_cases hi : GoMath.isInf x = true
+    · simp only [math_cos, GoMath.cos, isNaN_code_tie, isInf_code_tie, hn, hi, if_true, if_false, Bool.or_true,
+        naN_code_tie, Bool.false_eq_true]
+    · exact cos_main x (by simpa using hn) (by simpa using hi)
+
+tolerant
+/-- sin.go `Cos` (`haveArchCos = false` on amd64: the assembly stub is not reached), for every `x` -/
+theorem cos_code_tie (x : F64) : math_Cos x = GoMath.cos x := by
+  simp only [math_Cos, cosImpl_code_tie, Bool.false_eq_true, if_false]
+
+/-! ## `sin`, `Sin` -/
+
+tolerant
+/-- sin.go `sin` past the special cases (`x` not ±0, NaN, ±Inf) -/
+theorem sin_main (x : F64) (h0 : F64.feq x ⟨0⟩ = false) (hn : x.isNaN = false) (hi : GoMath.isInf x = false) :
+    math_sin x = GoMath.sin x := by
+  rcases sin_sign_facts x h0 hn hi with ⟨hlt, hsg, hfin'⟩ | ⟨hlt, hfin⟩
+  · have hfin : (-x).bits.toNat < 9218868437227405312 := by rw [neg_bits x hsg]; exact hfin'
+    trig_branches (-x) hfin [math_sin, GoMath.sin, isNaN_code_tie, isInf_code_tie, f64_zero_lit, h0, hn, hi, hlt, decide_true]
+  · trig_branches x hfin [math_sin, GoMath.sin, isNaN_code_tie, isInf_code_tie, f64_zero_lit, h0, hn, hi, hlt, decide_false]
+
+tolerant
+/-- sin.go `sin`, for every `x` -/
+theorem sinImpl_code_tie (x : F64) : math_sin x = GoMath.sin x := by
+  by_cases h0 : F64.feq x ⟨0⟩ = true
+  · simp only [math_sin, GoMath.sin, f64_zero_lit, h0, if_true, Bool.true_or]
+  · by_cases hn : x.isNaN = true
+    · simp only [math_sin, GoMath.sin, f64_zero_lit, isNaN_code_tie, h0, hn, if_true, if_false, Bool.or_true,
+        Bool.false_eq_true]
+    · by_cases hi : GoMath.isInf x = true
+      · simp only [math_sin, GoMath.sin, f64_zero_lit, isNaN_code_tie, isInf_code_tie, h0, hn, hi, if_true, if_false,
+          Bool.or_self, naN_code_tie, Bool.false_eq_true]
+      · exact sin_main x (by simpa using h0) (by simpa using hn) (by simpa using hi)
+
+tolerant
+/-- sin.go `Sin` (`haveArchSin = false` on amd64), for every `x` -/
+theorem sin_code_tie (x : F64) : math_Sin x = GoMath.sin x := by
+  simp only [math_Sin, sinImpl_code_tie, Bool.false_eq_true, if_false]
 
 end Ivg.Gen.Tie
